@@ -13,4 +13,5 @@ INVARIANT InvGoneStayGone
 PROPERTY NeverReused
 PROPERTY CompactExact
 PROPERTY SurvivorsKeep
+PROPERTY MarkIsSnapshot
 CHECK_DEADLOCK FALSE
